@@ -103,6 +103,17 @@ pub fn check_interface(
     for n in want.iter().chain(allowed.iter()).chain(v.explicit_iid.values()) {
         zone.entry(v.merge_key(n)).or_default().insert(n.clone());
     }
+    // the raw unsatisfied argument names and the names actually emitted take part as well: wit-component
+    // itself merges a component's dependency imports across versions, so the versions present in the
+    // binaries can differ from the generator's `use` model
+    for (_, n, _) in &v.unsatisfied {
+        zone.entry(v.merge_key(n)).or_default().insert(n.clone());
+    }
+    for n in &got_set {
+        if crate::props::c15::model_track(n).is_some() {
+            zone.entry(v.merge_key(n)).or_default().insert(n.clone());
+        }
+    }
     for (n, iid) in &v.explicit_iid {
         if n != iid {
             zone.entry(v.merge_key(n)).or_default().insert(n.clone());
